@@ -102,6 +102,7 @@ def run_property(prop, tier, seed, root=None, write_evidence=True, quiet=False, 
             if tier == "thorough" and hasattr(r.mod, "run_thorough"):
                 r.mod.run_thorough(r)
         finally:
+            r.rep.own_functions = set(r.rep.functions)      # what the property's own rules read (before the dependency closure adds to it)
             # the dependency closure runs whatever became of the property's own rules (a lint in a callee is a finding of its own); if it
             # stops on something it cannot read and the own rules had stopped before, the first stop is the one reported
             if not os.environ.get("PRSA_NO_DEPS") and not getattr(r.mod, "NO_DEPENDENCY_CLOSURE", False) and r.rep.functions:
